@@ -380,6 +380,73 @@ pub fn pinned_init_crashes(seed: u64, thorough: bool, cov: &mut Cov) -> Option<F
     None
 }
 
+/// Directories written by the pinned release, served by the CURRENT EXECUTABLE, which is given the
+/// directory the way the old deployment named it: as an absolute path, as a relative path, as a
+/// relative path whose first component is literally `~`.
+pub fn executable_part(seed: u64, thorough: bool, cov: &mut Cov, errors: &mut Vec<String>) -> Option<Found> {
+    use crate::http::{socket_request, Framing};
+    use std::time::Duration;
+    let Some(bin) = crate::net::server_bin() else {
+        errors.push("the server executable is not built".into());
+        return None;
+    };
+    let forms: [(&str, &str); 4] = [("absolute", ""), ("relative", "state/db"), ("relative-tilde", "~/tss"), ("relative-dotted", "./a/../a/data")];
+    for (fi, (form, rel)) in forms.iter().enumerate() {
+        for rep in 0..(if thorough { 6 } else { 1 }) {
+            let outer = ScratchDir::new("c19bin");
+            let data = if rel.is_empty() { outer.path().join("data") } else { outer.path().join(rel) };
+            if std::fs::create_dir_all(&data).is_err() {
+                continue;
+            }
+            let wseed = Rng::new(seed).fork(0x19B0 + (fi * 10 + rep) as u64).next_u64();
+            let Ok(exp) = write_pinned(&data, wseed, rep % 2 == 1) else { continue };
+            let Some(port) = crate::net::free_port() else { continue };
+            let addr = format!("127.0.0.1:{port}");
+            let given: std::ffi::OsString = if rel.is_empty() { data.as_os_str().to_os_string() } else { (*rel).into() };
+            let args: Vec<std::ffi::OsString> = vec!["--listen".into(), addr.clone().into(), "--data-dir".into(), given];
+            let mut proc = match crate::net::Proc::start_in(&bin, &args, &[], &[addr.clone()], Duration::from_secs(20), Some(outer.path())) {
+                Ok(p) => p,
+                Err(e) => {
+                    return Some(Found { property: "C19".into(), signature: "C19:executable does not start".into(), msg: format!("the current executable, given a data directory written by the pinned release as a {form} path ({rel:?}), does not start: {e}"), replay: json!({"origin": "c19-executable", "case": 950_000 + fi}) });
+                }
+            };
+            let to = Duration::from_secs(20);
+            let fail = |m: String| Some(Found { property: "C19".into(), signature: format!("C19:executable {}", m.split_whitespace().take(6).collect::<Vec<_>>().join(" ")), msg: format!("the current executable, given a data directory written by the pinned release as a {form} path ({rel:?}): {m}"), replay: json!({"origin": "c19-executable", "case": 950_000 + fi}) });
+            for c in &exp.clients {
+                let mut p = c.versions.first().map(|v| v.parent).unwrap_or(Uuid::nil());
+                for (i, v) in c.versions.iter().enumerate() {
+                    let req = Req::GetChild { parent: p };
+                    let r = Subject::decode_http(&req, &socket_request(&addr, &Subject::build_http(c.id, &req), Framing::ContentLength, to));
+                    cov.evaluations += 1;
+                    match r {
+                        Resp::Found { vid, data, .. } if vid == v.vid && data == v.pay.bytes() => p = vid,
+                        o => {
+                            proc.kill9();
+                            return fail(format!("version #{i} of client {} is not served as written: {}", c.id, o.short()));
+                        }
+                    }
+                }
+                if let Some(es) = &c.snapshot {
+                    let r = Subject::decode_http(&Req::GetSnapshot, &socket_request(&addr, &Subject::build_http(c.id, &Req::GetSnapshot), Framing::ContentLength, to));
+                    if !matches!(&r, Resp::Snap { vid, data } if *vid == es.vid && *data == es.pay.bytes()) {
+                        proc.kill9();
+                        return fail(format!("the snapshot of client {} is not served as written: {}", c.id, r.short()));
+                    }
+                }
+                let req = Req::AddVersion { parent: p, data: b"appended through the executable".to_vec() };
+                let r = Subject::decode_http(&req, &socket_request(&addr, &Subject::build_http(c.id, &req), Framing::ContentLength, to));
+                if !matches!(r, Resp::AddOk { .. }) {
+                    proc.kill9();
+                    return fail(format!("a version cannot be appended to the chain of client {}: {}", c.id, r.short()));
+                }
+            }
+            proc.kill9();
+            cov.hit(format!("executable-on-pinned-directory:{form}"));
+        }
+    }
+    None
+}
+
 pub fn fixtures_dir() -> PathBuf {
     verif_dir().join("fixtures")
 }
@@ -430,8 +497,16 @@ pub fn shard_run(tier: &str, seed: u64, replay_case: Option<usize>, shard: Shard
         }
     }
     // ---- left behind by a crash of the pinned release during its first start
-    if replay_case.map(|c| c >= 900_000).unwrap_or(shard.k == 3 % shard.n) {
+    if replay_case.map(|c| c >= 900_000 && c < 950_000).unwrap_or(shard.k == 3 % shard.n) {
         if let Some(f) = pinned_init_crashes(seed, thorough, &mut cov) {
+            out.found.push(f);
+            out.cov = cov;
+            return out;
+        }
+    }
+    // ---- served by the current executable under several spellings of the directory
+    if replay_case.map(|c| c >= 950_000).unwrap_or(shard.k == 4 % shard.n) {
+        if let Some(f) = executable_part(seed, thorough, &mut cov, &mut out.errors) {
             out.found.push(f);
             out.cov = cov;
             return out;
@@ -491,7 +566,7 @@ pub fn finalize(out: ShardOut, is_replay: bool) -> CheckResult {
         "directories": out.executed,
         "situations": top.iter().take(40).map(|(k, v)| json!({"situation": k, "n": v})).collect::<Vec<_>>(),
     });
-    let required = ["corpus:", "corpus-with-leftover-wal", "fresh-pinned-directory", "snapshot-verified", "id-base", "nil-base", "chain-starts-inside-another-clients-chain", "MiB-payloads", "pinned-first-start-crash-image:served"];
+    let required = ["corpus:", "corpus-with-leftover-wal", "fresh-pinned-directory", "snapshot-verified", "id-base", "nil-base", "chain-starts-inside-another-clients-chain", "MiB-payloads", "pinned-first-start-crash-image:served", "executable-on-pinned-directory:relative-tilde"];
     let verdict = if !out.found.is_empty() {
         Verdict::Violated(out.found)
     } else if !out.errors.is_empty() {
